@@ -12,7 +12,9 @@
     begins: fixed defect c61b452) must violate NoTaskPanic.
 (T) random real scope trees (1-4 scopes, shared/isolated, up to depth 3) are driven
     from concurrent goroutines (tasks -- some reporting an error, kill or stop on their own
-    scope before DoneTask, at any time --, errors, kills, stops, failing listeners, Close
+    scope before DoneTask, at any time --, errors, kills, stops, failing listeners -- the
+    scope's own and an ANCESTOR's that fails on a descendant's protocol event (ancestors run
+    first: that failure is the step's error and ends the trigger) --, Close
     of every scope, second Close); what listeners and callers observe is validated by
     Trace_ScopeClose.tla (property layer)."""
 import json
